@@ -164,7 +164,7 @@ var pureExternal = map[string]bool{
 	"(*os/exec.ExitError).Error": true, "(*go/build.Context).Import": false,
 }
 
-var purePkgs = map[string]bool{"strconv": true, "strings": true, "unicode": true, "unicode/utf8": true, "path": true, "path/filepath": true, "errors": true}
+var purePkgs = map[string]bool{"strconv": true, "strings": true, "bytes": true, "unicode": true, "unicode/utf8": true, "path": true, "path/filepath": true, "errors": true}
 
 // receiver-mutating external methods on private buffers
 var recvMutExternal = map[string]bool{
